@@ -680,6 +680,19 @@ def custom_block_types(R, L, mods, rng, quick, g):
         R.count('fields_compared', C.fields + 6)
         for path, kind, msg, where in C.diffs[:3]:
             R.violation(f'field-differs-McBlockExtra-{kind}', f'McBlockExtra: field {path}: {msg}', W)
+        if key_block and isinstance(getattr(cfg, 'config', None), dict):
+            # what the caller does with one result (reading the parameter slices to their end is the normal way to use them) must not show in the next parse of the same cell
+            lib_cell = bridge.to_lib(cell)
+            st1, o1 = mon.call(lambda: blk.McBlockExtra.deserialize(lib_cell.begin_parse()))
+            if st1 == 'ok' and o1.config is not None:
+                first = {k: (v.bits.to01(), v.remaining_refs) for k, v in o1.config.config.items()}
+                for v in o1.config.config.values():
+                    mon.call(lambda: (v.load_bits(v.remaining_bits), [v.load_ref() for _ in range(v.remaining_refs)]))
+                st2, o2 = mon.call(lambda: blk.McBlockExtra.deserialize(lib_cell.begin_parse()))
+                second = {k: (v.bits.to01(), v.remaining_refs) for k, v in o2.config.config.items()} if st2 == 'ok' and o2.config is not None else None
+                R.count('same_cell_parsed_twice')
+                R.check(second == first, 'second-parse-of-same-cell-differs-McBlockExtra-config', 'parsing the same key-block extra cell again after the configuration parameter slices of the first result '
+                        'were read to their end gives other parameter contents: results share state', W)
         R.check(sl.bits.to01() == SENT_BITS and sl.remaining_refs == 0, 'consumed-wrong-amount-McBlockExtra',
                 f'McBlockExtra.deserialize left {sl.remaining_bits} bits / {sl.remaining_refs} references, the sentinel is {len(SENT_BITS)} bits / 0 references', W)
 
